@@ -76,6 +76,63 @@ def gen_session(rng, ndocs, maxlen):
     return msgs
 
 
+SHUT = lspclient.SHUT_ID
+
+
+def gen_life(rng, ndocs):
+    """the life of the process: a short session with an ending of its own -- shutdown and exit (with or without
+    messages after them), exit without shutdown, an input that just ends, shutdown alone, shutdown followed by
+    something other than exit"""
+    body = gen_session(rng, ndocs, 12)
+    tail = gen_session(rng, ndocs, 3)
+    k = rng.randrange(8)
+    if k == 0:
+        end = [("H", SHUT), ("Z",)] + tail
+    elif k == 1:
+        end = [("Z",), ("H", SHUT), ("Z",)]
+    elif k == 2:
+        end = []
+    elif k == 3:
+        end = [("H", SHUT)]
+    elif k == 4:
+        end = [("H", SHUT)] + (tail or [("N", "foo/bar")])[:1] + [("Z",)]
+    elif k == 5:
+        end = [("H", SHUT), ("H", SHUT + 1), ("Z",)]
+    elif k == 6:
+        end = [("Z",)] + tail
+    else:
+        end = [("H", SHUT), ("Z",), ("H", SHUT + 1), ("Z",)]
+    return body + end
+
+
+def check_life(msgs, res, mo):
+    """the real process against the model's prediction [frames, shutdown id or -, clean]"""
+    clean = mo[2] == "1"
+    if (res["exit"] == 0) != clean:
+        return "the process ended with status %r where the model says %s" % (res["exit"], "0" if clean else "not 0")
+    shut = [f.get("id") for f in res["frames"] if f.get("id") in (SHUT, SHUT + 1) and "method" not in f]
+    want = [] if mo[1] == "-" else [int(mo[1])]
+    if shut != want:
+        return "shutdown replies %r where the model says %r" % (shut, want)
+    ms = L.model_skeleton(mo[0], None)
+    rs = L.skeleton([f for f in res["frames"] if f.get("id") != SHUT + 1])
+    if ms != rs:
+        k = next((j for j in range(min(len(ms), len(rs))) if ms[j] != rs[j]), min(len(ms), len(rs)))
+        return "frames differ at %d: model %r, server %r" % (k, ms[k:k + 2], rs[k:k + 2])
+    return None
+
+
+def check_life_property(msgs, res):
+    """what the property itself says about such a session: shutdown directly followed by exit, with nothing but ordinary
+    messages before -> status 0 and every request before answered once"""
+    kinds = [m[0] for m in msgs]
+    if "H" in kinds:
+        i = kinds.index("H")
+        if "Z" not in kinds[:i] and kinds[i + 1:i + 2] == ["Z"]:
+            return check_session(msgs[:i], res)
+    return None
+
+
 def check_session(msgs, res):
     """the property on the real server's behaviour"""
     if res["exit"] != 0:
@@ -129,6 +186,34 @@ def search(run, info):
 
     with ThreadPoolExecutor(max_workers=vlib.NCPU) as ex:
         results = list(ex.map(runjob, sessions))
+    # the life of the process
+    nlife = 160 if run.tier == "quick" else 2400
+    lives = [gen_life(rng, len(texts)) for _ in range(nlife)]
+    lives += [[("Z",)], [], [("H", SHUT)], [("H", SHUT), ("Z",)], [("H", SHUT), ("Q", 5, "textDocument/hover"), ("Z",)],
+              [("Z",), ("H", SHUT), ("Z",)], [("Q", 5, "textDocument/hover"), ("H", SHUT), ("Z",), ("Q", 6, "textDocument/hover")]]
+    lmodel = {}
+    if info.get("extract_ok"):
+        lmodel = vlib.run_model([("lsp", "L%d" % i, ["L"] + [L.to_model(m, clean) for m in s]) for i, s in enumerate(lives)], run.workdir)
+
+    def lifejob(s):
+        return lspclient.session(binp, [L.to_real(m, texts) for m in s], timeout=120, shutdown=False, do_exit=False)
+
+    with ThreadPoolExecutor(max_workers=vlib.NCPU) as ex:
+        lres = list(ex.map(lifejob, lives))
+    ends = {}
+    for i, (s, res) in enumerate(zip(lives, lres)):
+        run.count(("life",) + tuple(map(str, s)), True, "life-status:%s" % ("0" if res["exit"] == 0 else "not-0"))
+        fail = check_life_property(s, res)
+        if fail:
+            run.violation("impl-violates-property", "life of the process: " + fail, {"life": [list(m) for m in s], "stderr": res["stderr"][-600:]})
+            continue
+        mo = lmodel.get("L%d" % i)
+        if mo is not None and len(mo) == 3:
+            run.cov["traces_validated_against_impl"] += 1
+            fail = check_life(s, res, mo)
+            if fail:
+                run.cov["disagreements_checked"] += 1
+                run.violation("correspondence", "life of the process: " + fail, {"life": [list(m) for m in s], "stderr": res["stderr"][-300:]}, no_input=True)
     hist = {}
     for i, (s, res) in enumerate(zip(sessions, results)):
         run.count(tuple(map(str, s)), len(s) > 0, "len:%d" % (10 * (len(s) // 10)))
@@ -157,12 +242,19 @@ def search(run, info):
                 "didClose / semanticTokens requests / requests and notifications for unimplemented methods / requests and "
                 "notifications of implemented methods with parameters of the wrong shape / client responses, over three "
                 "document numbers as file: and non-file URIs incl. unopened ones, followed by shutdown and exit; plus fixed "
-                "regression sessions; non-trivial = at least one message, distinct by message list",
+                "regression sessions; plus the life of the process: short sessions ending in shutdown+exit (and messages after), "
+                "exit without shutdown, an input that ends, shutdown alone, shutdown followed by another message or a second "
+                "shutdown -- status 0, the shutdown reply and the frames written compared with the model's session; non-trivial = at least one message, distinct by message list",
         "sessions": len(sessions),
         "exhaustive": False}}
 
 
 def replay(run, rep):
+    if rep.get("life") is not None:
+        texts = [t for _, t in L.DOCS]
+        msgs = [tuple(m) for m in rep["life"]]
+        res = lspclient.session(vlib.ironplcc_bin(), [L.to_real(m, texts) for m in msgs], timeout=120, shutdown=False, do_exit=False)
+        return 1 if check_life_property(msgs, res) else 0
     s = rep.get("session")
     if s is None:
         return 2
